@@ -74,7 +74,7 @@ add("C02", "fault_enumeration",
     real=["transport (Client, Server, PQ discoverable and hidden handshakes, cookies, key derivation)", "cyclist", "kravatte", "keys (X25519, ML-KEM-512)", "certs"],
     rule=("the run index enumerates the single-fault space of one handshake: slot (4) x handshake message type (5 discoverable + 2 hidden) x byte position or truncation length 0..2047 "
           "(every message is shorter) x sweep. Slot 0: xor one byte with the sweep's mask (sweep 0: single bit 1<<(pos%8); 1: 0x80; 2: 0xff; 3: 0x01; 4+: seeded non-zero); slot 1: truncation to pos bytes "
-          "(first sweep; later sweeps: xor with a seeded mask); slot 2: replacement by the corresponding datagram of an independent handshake (other client, or an earlier attempt from the same "
+          "(first sweep; odd later sweeps: the same truncation delivered right behind a full copy of the datagram from another address, for the discoverable client-to-server messages; even later sweeps: xor with a seeded mask); slot 2: replacement by the corresponding datagram of an independent handshake (other client, or an earlier attempt from the same "
           "address; 4 variants), other positions xor with a seeded mask; slot 3: the same mask on two neighbouring bytes. One sweep = 57344 runs and covers EVERY byte offset and "
           "EVERY truncation length of every message; positions beyond the message length are vacuous runs (still a completed handshake whose keys are compared). "
           "Non-trivial = the alteration was applied in flight and the receiving party's outcome was judged; distinct = distinct event-log hash."),
